@@ -104,6 +104,35 @@ def reverse_shift_mismatches(F):
     return hits, seen
 
 
+def check_select_lane_masks(ctx, F, sel, tag, rr, lo):
+    """Portable in-word select: the two constant and-masks that cut one byte lane out of a shifted word keep every bit the lane
+    can carry. (1) the byte of `n` that indexes _SELECT_IN_BYTE can be any of 0..=255: a constant mask must keep bits 0..7;
+    (2) the prefix count cut out of the byte-wise cumulative popcount (a word multiplied by 0x0101..01) takes every value in
+    0..=56 (n = all ones reaches 0, 8, .., 56; other words the rest), so a constant mask on it must keep bits 0..5. A mask
+    that drops such a bit returns a wrong position for the words that set it. Decides the mask extent, not the arithmetic."""
+    def const_mask(t):
+        t = core(t)
+        if t[0] == "bin" and t[1] == "BitAnd":
+            for a, b in ((t[2], t[3]), (t[3], t[2])):
+                cb = core(b)
+                if cb[0] == "const" and isinstance(cb[1], int):
+                    return core(a), cb[1]
+        return None, None
+    x, c = const_mask(lo)
+    if c is not None and any(y[0] == "bin" and y[1] == "Shr" for y in subterms(x)):
+        ctx.ob("C17.R3.select-lane-mask-extent", "bits::select|byte-of-n" + tag, loc(sel.raw["span"]), (c & 0xFF) == 0xFF, "mask-extent",
+               "the byte of n that indexes _SELECT_IN_BYTE is cut out with & %#x: every bit of the byte is needed" % c, positive=True)
+    t = core(rr)
+    if t[0] == "bin" and t[1] == "Sub" and m(Param(1), t[2]):
+        x, c = const_mask(t[3])
+        swar = x is not None and any(y[0] == "const" and y[1] == 0x0101010101010101 for y in subterms(x)) and any(
+            y[0] == "bin" and y[1] == "Shr" for y in subterms(x))
+        if c is not None and swar:
+            ctx.ob("C17.R3.select-lane-mask-extent", "bits::select|prefix-count" + tag, loc(sel.raw["span"]), (c & 0x3F) == 0x3F, "mask-extent",
+                   "the count of ones in lower bytes (0..=56, a lane of the word multiplied by 0x0101..01) is cut out with & %#x: bits 0..5 are needed" % c,
+                   positive=True)
+
+
 def check_config(ctx, F, tag, cfg):
     # ---------------- R7 the helpers do not fail inside the domain their documentation states (interval interpretation, A12)
     if F.data["target"].get("overflow_checks"):
@@ -240,6 +269,8 @@ def check_config(ctx, F, tag, cfg):
                 lo = add[3] if m(Bin("Shl", ANY, Const(8)), add[2]) else add[2]
                 lo_max = c08.max_value(F, sel, lo, None)
                 ok2 = lo_max is not None and lo_max <= 255
+            if ok2:
+                check_select_lane_masks(ctx, F, sel, tag, env2["rr"], lo)
             ok = ok1 and ok2
             detail = "_PS_OVERFLOW[%s] (rank < 64 by contract, table has 65 entries): %s; _SELECT_IN_BYTE[%s] (relative rank <= 7, table has 8*256 entries): %s" % (
                 tstr(i1) if i1 else "?", ok1, tstr(i2)[:70] if i2 else "?", ok2)
